@@ -1,7 +1,99 @@
-(* C13 -- property theorems only: each is closed by [exact] of a lemma proved elsewhere. *)
-From Coq Require Import List Arith.
-From Muscle Require Import Refl.Index Refl.IndexProofs.
+(* C13 -- an ordered child index replayed from its update log equals the server's index.
+   Property theorems only: each is closed by [exact] of a lemma proved in Refl/. *)
+From Coq Require Import List Arith NArith.
+Import ListNotations.
+From Muscle Require Import Gen.Consts Refl.Index Refl.IndexProofs Refl.IndexModel Refl.IndexModelProofs Refl.IndexWitness.
 
-Theorem C13_replay_app : forall a b l, replay (a ++ b) l = replay b (replay a l).
-Proof. exact replay_app. Qed.
-Print Assumptions C13_replay_app.
+(* For every history (any number of sessions, any list of steps, each step one command or a batch of commands of
+   one session: ordered inserts, reorders, plain sets, removals, subtree clones, subscriptions/unsubscriptions/
+   GETDATA at any point): every index lists only existing children of its node, each at most once. *)
+Theorem C13_index_inv : forall n steps p,
+  let t := st_tree (run cfg_fixed n steps) in
+  NoDup (index_at t p) /\ forall k, In k (index_at t p) -> has_node t (p ++ [k]) = true.
+Proof. exact index_inv. Qed.
+Print Assumptions C13_index_inv.
+
+(* ... and at every quiescent point every subscriber's replica -- obtained by replaying, from nothing, everything
+   that was delivered to it for that node since it subscribed: the snapshot, then the updates -- is exactly the
+   server's current index. *)
+Theorem C13_replay_eq : forall n steps s p,
+  let st := run cfg_fixed n steps in
+  subscribed st s p = true ->
+  replay (st_hist st s p) [] = index_at (st_tree st) p /\ st_mirror st s p = index_at (st_tree st) p.
+Proof. exact replay_eq. Qed.
+Print Assumptions C13_replay_eq.
+
+Theorem C13_quiescent_clean : forall n steps,
+  let st := run cfg_fixed n steps in
+  st_pend st = [] /\ forall s p, subscribed st s p = false -> st_mirror st s p = [].
+Proof. exact quiescent_clean. Qed.
+Print Assumptions C13_quiescent_clean.
+
+(* removing a child removes its entry: in every reachable state a name without a node is in no index, and the
+   removal primitive (DataNode::RemoveChild, recursive) deletes the node and its parent's entry *)
+Theorem C13_absent_child_not_indexed : forall n steps p k,
+  let t := st_tree (run cfg_fixed n steps) in has_node t (p ++ [k]) = false -> ~ In k (index_at t p).
+Proof. exact absent_child_not_indexed. Qed.
+Print Assumptions C13_absent_child_not_indexed.
+
+Theorem C13_remove_drops_entry : forall st v, Mid st -> has_node (st_tree st) v = true -> 2 <= length v ->
+  let st' := prim_remove_node st v in
+  has_node (st_tree st') v = false /\ ~ In (last_name v) (index_at (st_tree st') (parent_of v)) /\ Mid st'.
+Proof. exact remove_drops_entry. Qed.
+Print Assumptions C13_remove_drops_entry.
+
+(* the full invariant, for every configuration that has both repairs *)
+Theorem C13_run_Inv : forall cfg n steps, cfg_ok cfg -> Inv (run cfg n steps).
+Proof. exact run_Inv. Qed.
+Print Assumptions C13_run_Inv.
+
+(* the client-side replay of a snapshot yields the index (from nothing always; from anything when non-empty) *)
+Theorem C13_snapshot_replay : forall n, replay (snapshot n) [] = index_of n.
+Proof. exact replay_snapshot_empty. Qed.
+Print Assumptions C13_snapshot_replay.
+
+Theorem C13_snapshot_replay_nonempty : forall n l, index_of n <> [] -> replay (snapshot n) l = index_of n.
+Proof. exact replay_snapshot_nonempty. Qed.
+Print Assumptions C13_snapshot_replay_nonempty.
+
+(* the behaviour found in the pinned tree refutes the property (both witnesses replayed on the real server) *)
+Theorem C13_reorder_ipres_refuted :
+  exists steps s p, let st := run cfg_pinned 1 steps in
+    subscribed st s p = true /\ st_mirror st s p <> index_at (st_tree st) p.
+Proof. exact reorder_ipres_refuted. Qed.
+Print Assumptions C13_reorder_ipres_refuted.
+
+Theorem C13_clone_refuted :
+  exists steps p, ~ NoDup (index_at (st_tree (run cfg_pinned 1 steps)) p).
+Proof. exact clone_refuted. Qed.
+Print Assumptions C13_clone_refuted.
+
+(* delaying the push to the end of a batch lets a GETDATA snapshot overtake a pending update *)
+Theorem C13_late_push_refuted :
+  let st := step_late_push cfg_fixed (run cfg_fixed 1 batch_witness_prefix) batch_witness_last in
+  subscribed st 0 [NS 0; a_] = true /\
+  index_at (st_tree st) [NS 0; a_] = [NI 0; NI 2; NI 1] /\
+  st_mirror st 0 [NS 0; a_] = [NI 0; NI 2; NI 2; NI 1].
+Proof. exact late_push_refuted. Qed.
+Print Assumptions C13_late_push_refuted.
+
+(* the op codes the harness and the driver print are the translated INDEX_OP_* constants; they are pairwise distinct *)
+Theorem C13_opcodes_distinct :
+  c_INDEX_OP_ENTRYINSERTED <> c_INDEX_OP_ENTRYREMOVED /\ c_INDEX_OP_ENTRYINSERTED <> c_INDEX_OP_CLEARED /\
+  c_INDEX_OP_ENTRYREMOVED <> c_INDEX_OP_CLEARED.
+Proof. exact opcodes_distinct. Qed.
+Print Assumptions C13_opcodes_distinct.
+
+(* non-vacuity of the premises *)
+Example C13_nv_replay_eq :
+  let st := run cfg_fixed 2 nv_steps in
+  subscribed st 1 [NS 0; a_] = true /\ index_at (st_tree st) [NS 0; a_] = [NI 2; NI 0] /\
+  st_mirror st 1 [NS 0; a_] = [NI 2; NI 0] /\
+  st_hist st 1 [NS 0; a_] = [OpIns 0 (NI 0); OpIns 1 (NI 1); OpIns 0 (NI 2); OpRem 1 (NI 0); OpIns 2 (NI 0); OpRem 1 (NI 1)].
+Proof. exact nv_replay_eq. Qed.
+
+Example C13_nv_remove_premises :
+  let st := run cfg_fixed 2 (firstn 4 nv_steps) in
+  has_node (st_tree st) [NS 0; a_; NI 1] = true /\ 2 <= length [NS 0; a_; NI 1] /\
+  In (NI 1) (index_at (st_tree st) [NS 0; a_]).
+Proof. exact nv_remove_premises. Qed.
